@@ -25,10 +25,15 @@ type burstCfg struct {
 	backend, store string
 	g, keys        int
 	seed           uint64
+	kind           string // "" creators (Emplace/AddClass) | append (first AppendBytes of an absent key)
 }
 
 func (b burstCfg) String() string {
-	return fmt.Sprintf("burst backend=%s store=%s g=%d keys=%d seed=%d", b.backend, b.store, b.g, b.keys, b.seed)
+	s := fmt.Sprintf("burst backend=%s store=%s g=%d keys=%d seed=%d", b.backend, b.store, b.g, b.keys, b.seed)
+	if b.kind != "" {
+		s += " kind=" + b.kind
+	}
+	return s
 }
 
 func parseBurst(line string) (burstCfg, bool) {
@@ -53,15 +58,18 @@ func parseBurst(line string) (burstCfg, bool) {
 			b.keys, _ = strconv.Atoi(kv[1])
 		case "seed":
 			b.seed, _ = strconv.ParseUint(kv[1], 10, 64)
+		case "kind":
+			b.kind = kv[1]
 		}
 	}
 	ok := (b.backend == "mem" || b.backend == "sql") && (b.store == "ord" || b.store == "uno") &&
-		b.g >= 2 && b.g <= 64 && b.keys >= 1 && b.keys <= 100000
+		(b.kind == "" || b.kind == "append") && b.g >= 2 && b.g <= 64 && b.keys >= 1 && b.keys <= 100000
 	return b, ok
 }
 
 // runBurst returns "" when the oracle held, else what failed; hung reports a watchdog expiry.
 func (w *world) runBurst(cfg burstCfg, rep *hx.Report) (fail string, hung bool) {
+	w.setFlavour("file") // concurrent callers need a database every connection sees
 	w.reset()
 	var be *backend
 	if cfg.backend == "mem" {
@@ -78,7 +86,58 @@ func (w *world) runBurst(cfg burstCfg, rep *hx.Report) (fail string, hung bool) 
 		saw     string // value read back ("" = not found / error)
 	}
 	finished := hx.WithTimeout(2*w.watchdog, func() {
-		for i := 0; i < cfg.keys && fail == ""; i++ {
+		for i := 0; i < cfg.keys && fail == "" && cfg.kind == "append"; i++ {
+			// first appends: every goroutine appends its own chunk to a key nobody has created yet;
+			// AppendBytes upserts, so every chunk whose call succeeded is in the value, once
+			key := fmt.Sprintf("burst-%d-%d", cfg.seed, i)
+			res := make([]string, cfg.g)
+			start := make(chan struct{})
+			var wg sync.WaitGroup
+			for g := 0; g < cfg.g; g++ {
+				wg.Add(1)
+				go func(g int) {
+					defer wg.Done()
+					<-start
+					res[g] = classify("appendBytes", kv.AppendBytes(key, []byte(fmt.Sprintf("[%d]", g))))
+				}(g)
+			}
+			close(start)
+			wg.Wait()
+			rep.Count("burst-append-keys:" + cfg.backend)
+			final, found := "", false
+			for try := 0; try < 200; try++ {
+				bs, err := kv.GetBytes(key)
+				if err == nil {
+					final, found = string(bs), true
+					break
+				}
+				if classify("get", err) != "busy" {
+					break
+				}
+				time.Sleep(2 * time.Millisecond)
+			}
+			want := 0
+			for g, r := range res {
+				chunk := fmt.Sprintf("[%d]", g)
+				n := strings.Count(final, chunk)
+				switch {
+				case r == "ok" && n != 1:
+					fail = fmt.Sprintf("key %s did not exist; %d goroutines appended to it at once; the AppendBytes of chunk %s reported "+
+						"success but the value %q holds it %d times", key, cfg.g, chunk, final, n)
+				case r == "busy" && n != 0:
+					fail = fmt.Sprintf("key %s: the AppendBytes of chunk %s reported busy but the value %q holds it", key, chunk, final)
+				case r != "ok" && r != "busy":
+					fail = fmt.Sprintf("key %s: AppendBytes answered %s", key, r)
+				}
+				if r == "ok" {
+					want += len(chunk)
+				}
+			}
+			if fail == "" && (len(final) != want || (want > 0 && !found)) {
+				fail = fmt.Sprintf("key %s: successful first appends add up to %d bytes, the value %q has %d", key, want, final, len(final))
+			}
+		}
+		for i := 0; i < cfg.keys && fail == "" && cfg.kind == ""; i++ {
 			key := fmt.Sprintf("burst-%d-%d", cfg.seed, i)
 			kinds := make([]string, cfg.g)
 			for g := range kinds {
@@ -179,7 +238,11 @@ func (r *run) burst(cfg burstCfg, origin string, reps int) {
 			return
 		}
 		if fail != "" {
-			r.rep.Fail(cfg.backend+"-emplace-overwrote-concurrent-create", fail+" ["+origin+"; "+cfg.String()+"]", []string{cfg.String()})
+			key := cfg.backend + "-emplace-overwrote-concurrent-create"
+			if cfg.kind == "append" {
+				key = cfg.backend + "-append-lost-concurrent-create"
+			}
+			r.rep.Fail(key, fail+" ["+origin+"; "+cfg.String()+"]", []string{cfg.String()})
 			return
 		}
 	}
